@@ -12,5 +12,7 @@ INVARIANT LawBoundsFromTokens
 INVARIANT LawFeat
 INVARIANT LawAnchorsOnBounds
 INVARIANT LawAnchorsConsistent
+INVARIANT NeverStuck
+PROPERTY RankDecreases
 PROPERTY Terminates
 CHECK_DEADLOCK FALSE
